@@ -23,7 +23,14 @@ def main():
     from pyiga import assemble, bspline, geometry
     kv = bspline.make_knots(2, 0.0, 1.0, 3)
     out = {}
-    for fid in sys.argv[1:]:
+    start_at = float(os.environ.get('C20_START_AT', '0') or 0)
+    while start_at and time.time() < start_at:       # synchronised start of a cold-cache race (busy wait: microseconds matter)
+        pass
+    for n, fid in enumerate(sys.argv[1:]):
+        if n > 0 and os.environ.get('C20_CLEAR_BETWEEN'):
+            # what scripts/clear-cache.py does, while this interpreter stays alive
+            import shutil
+            shutil.rmtree(os.path.join(os.environ['XDG_CACHE_HOME'], 'pyiga'), ignore_errors=True)
         form, _ = FORMS[fid]
         A = assemble.assemble(form, (kv,), geo=geometry.line_segment(0.0, 2.0)).toarray()
         out[fid] = A.tolist()
